@@ -325,6 +325,20 @@ def _eval_lit(lit, env):
         return env.get(lit[2][1])
     if lit[0] == "cmp" and lit[1] == "==" and lit[2] == ("call", G("len"), (("FIXED",),), ()) and lit[3] == ("const", 0):
         return not any(env.values())
+    if lit == ("FIXED",):
+        return any(env.values())            # truth of the record: something is fixed
+    if lit[0] == "cmp" and lit[1] == "==":
+        # list(fixed) == ["delta"] / set(fixed) == {"delta"} / sorted(fixed) == [...]: exactly these are fixed (keys in the order they are recorded)
+        for keys_t, lit_t in ((lit[2], lit[3]), (lit[3], lit[2])):
+            if keys_t[0] == "call" and keys_t[1] in (G("list"), G("set"), G("sorted"), G("tuple")) and keys_t[2] in ((("FIXED",),), (("call", ("attr", ("FIXED",), "keys"), (), ()),)) \
+                    and lit_t[0] in ("list", "tuple", "set") and all(x[0] == "const" for x in lit_t[1]):
+                have = [k for k in env if env[k]]           # env is ordered like the records (alpha, beta, delta)
+                want = [x[1] for x in lit_t[1]]
+                if keys_t[1] in (G("set"),) or lit_t[0] == "set":
+                    return set(have) == set(want)
+                if keys_t[1] == G("sorted"):
+                    return sorted(have) == want
+                return have == want
     return None
 
 
@@ -631,6 +645,16 @@ def generic(prog, rep, fam):
                     unpack_ok = True
                     val_idx = ("idx", val[1][3], "zip")
                     val = val[1][2]
+                if nm[0] == "sub" and nm[1] == ("attr", SELF, "_param_names") and val[0] == "phi" and len(val[1]) == 2 \
+                        and len(st.value.args) == 3 and isinstance(st.value.args[2], ast.Name):
+                    # the stored name was re-bound under a test (`if fixed is not None: value = fixed`): read it as the choice it is
+                    for d_ in bm.rd.reaching(st.value.args[2].id, st):
+                        if d_.kind == "assign" and d_.stmt is not None and isinstance(d_.stmt, ast.Assign):
+                            fv = bm.term(d_.stmt.value, d_.stmt)
+                            others = [a_ for a_ in val[1] if a_ != fv]
+                            own = [l_ for l_ in pm.of(d_.stmt) if l_ not in pm.of(st)]
+                            if fv in val[1] and len(others) == 1 and own == [("not", ("isnone", fv))]:
+                                val = ("ifexp", ("isnone", fv), others[0], fv)
                 if nm[0] == "sub" and nm[1] == ("attr", SELF, "_param_names") and val[0] == "ifexp":
                     # returned value where the parameter is free, its fixed value where it is fixed
                     tst, a_, b_ = val[1], val[2], val[3]
